@@ -135,3 +135,14 @@ impl<Res> InFlightRequests<Res> {
         })
     }
 }
+
+#[cfg(feature = "verif")]
+impl<Res> InFlightRequests<Res> {
+    /// Verification hook: lengths of the request table and of the timer queue.
+    pub fn verif_lens(&self) -> crate::verif::Lens {
+        crate::verif::Lens {
+            entries: self.request_data.len(),
+            timers: self.deadlines.len(),
+        }
+    }
+}
